@@ -1,6 +1,6 @@
 """E10 - Python-semantics hygiene on the functions a property's behaviour passes through.
 
-Nine exact lints, each of which names a construct whose behaviour differs between the first and a later use - the kind
+Ten exact lints, each of which names a construct whose behaviour differs between the first and a later use - the kind
 of fault that a test which exercises a function once cannot see:
 
   H1  a mutable default argument (or a function attribute / module-level container bound once) that the function
@@ -18,6 +18,8 @@ of fault that a test which exercises a function once cannot see:
   H8  a click option whose kind (flag / multiple / plain) disagrees with the annotation of the parameter it fills - hidden
       aliases included;
   H9  text-mode file I/O (open / read_text / write_text) without an explicit encoding: the locale decides;
+  H10 a class-level table attribute that is a list / tuple in its sibling classes and a plain string in one (a one-element
+      tuple without its comma);
   H3  a lambda / nested function created in a loop that reads the loop variable as a free variable and is STORED
       (appended, assigned to a container or attribute, returned, yielded) instead of being called in the same iteration:
       every stored closure sees the last value of the variable.
@@ -486,6 +488,30 @@ def implicit_text_encoding(fn: ast.AST) -> list[tuple[ast.AST, str, str]]:
     return out
 
 
+# ------------------------------------------------------------------------------------------------------------ H10
+def sibling_attribute_kinds(repo: Repo) -> list[tuple[ast.AST, str, str]]:
+    """A class-level data attribute that is a list / tuple in most classes that define it and a plain string in one:
+    `SHEBANGS = ("#!")` is the string "#!" (the comma that makes a tuple is missing); iterating it yields characters."""
+    by_name: dict[str, list[tuple[str, ast.AST, ast.AST]]] = {}
+    for q, c in repo.classes.items():
+        for st in c.body:
+            tgt = val = None
+            if isinstance(st, ast.Assign) and len(st.targets) == 1 and isinstance(st.targets[0], ast.Name):
+                tgt, val = st.targets[0].id, st.value
+            elif isinstance(st, ast.AnnAssign) and isinstance(st.target, ast.Name) and st.value is not None:
+                tgt, val = st.target.id, st.value
+            if tgt and tgt.isupper():
+                by_name.setdefault(tgt, []).append((q, st, val))
+    out = []
+    for name, defs in by_name.items():
+        seqs = [d for d in defs if isinstance(d[2], (ast.List, ast.Tuple))]
+        strs = [d for d in defs if isinstance(d[2], ast.Constant) and isinstance(d[2].value, str)]
+        if len(seqs) >= 2 and strs and len(strs) < len(seqs):
+            for q, st, val in strs:
+                out.append((st, q, f"{q}.{name} = {val.value!r} is a string, {len(seqs)} sibling classes define {name} as a list / tuple"))
+    return out
+
+
 # ------------------------------------------------------------------------------------------------------------ driver
 def scope_of(repo: Repo, seeds: Iterable[str]) -> list[str]:
     """Seeds plus everything they can call, by name: a plain name or self./cls. attribute that denotes exactly one function of the package."""
@@ -664,6 +690,7 @@ def run(ck, repo: Repo, rid: str = "H") -> None:
     seeds = list(ck.analysed) + [q for q in ck.extra.pop("hygiene_scope", []) if q in repo.functions]
     scope = scope_of(repo, seeds) if seeds else sorted(repo.functions)
     gens = generator_names(repo)
+    ck.extra["hygiene_scope_resolved"] = list(scope)
     n = 0
     for q in scope:
         fn = repo.functions[q]
@@ -695,6 +722,11 @@ def run(ck, repo: Repo, rid: str = "H") -> None:
         for node, name, what in late_binding(fn):
             r.violation(q, f"H3 late-binding closure: {what}",
                         "all closures created by the loop share the variable and see its LAST value when they are finally called", repo.loc(node))
+    for node, cq, what in sibling_attribute_kinds(repo):
+        if repo.module_of(node).name in {repo.module_of(repo.functions[x]).name for x in scope}:
+            r.violation(cq, f"H10 a string where its siblings have a sequence: {what}",
+                        "code that walks the attribute (`for item in cls.ATTR`) gets the CHARACTERS of the string: a one-element tuple needs"
+                        " its trailing comma", repo.loc(node))
     # H6 on the modules these functions live in (tables are module- or class-level)
     mods = sorted({repo.module_of(repo.functions[q]).name for q in scope})
     for mname in mods:
